@@ -612,16 +612,28 @@ class GMMMachine(BaseEstimator):
         if int(version_major) >= 1:
             if hdf5.attrs["writer_class"] != str(cls):
                 logger.warning(f"{hdf5.attrs['writer_class']} is not {cls}.")
-            if hdf5["trainer"] == "map" and ubm is None:
+            trainer = hdf5["trainer"][()]
+            if isinstance(trainer, bytes):
+                trainer = trainer.decode()
+            if trainer == "map" and ubm is None:
                 raise ValueError(
                     "The UBM is needed when loading a MAP machine."
                 )
+            # A setting that is None is not written to the file
             self = cls(
                 n_gaussians=hdf5["n_gaussians"][()],
-                trainer=hdf5["trainer"][()],
+                trainer=trainer,
                 ubm=ubm,
-                convergence_threshold=1e-5,
-                max_fitting_steps=hdf5["max_fitting_steps"][()],
+                convergence_threshold=(
+                    hdf5["convergence_threshold"][()]
+                    if "convergence_threshold" in hdf5
+                    else None
+                ),
+                max_fitting_steps=(
+                    hdf5["max_fitting_steps"][()]
+                    if "max_fitting_steps" in hdf5
+                    else None
+                ),
                 weights=hdf5["weights"][...],
                 k_means_trainer=None,
                 update_means=hdf5["update_means"][()],
@@ -658,7 +670,7 @@ class GMMMachine(BaseEstimator):
 
     def load(self, hdf5):
         """Overwrites the current state with those in an `HDF5File` object."""
-        new_self = self.from_hdf5(hdf5)
+        new_self = self.from_hdf5(hdf5, ubm=getattr(self, "ubm", None))
         self.__dict__.update(new_self.__dict__)
 
     def save(self, hdf5):
@@ -669,8 +681,10 @@ class GMMMachine(BaseEstimator):
         hdf5.attrs["writer_class"] = str(self.__class__)
         hdf5["n_gaussians"] = self.n_gaussians
         hdf5["trainer"] = self.trainer
-        hdf5["convergence_threshold"] = self.convergence_threshold
-        hdf5["max_fitting_steps"] = self.max_fitting_steps
+        if self.convergence_threshold is not None:
+            hdf5["convergence_threshold"] = self.convergence_threshold
+        if self.max_fitting_steps is not None:
+            hdf5["max_fitting_steps"] = self.max_fitting_steps
         hdf5["weights"] = self.weights
         hdf5["update_means"] = self.update_means
         hdf5["update_variances"] = self.update_variances
